@@ -70,6 +70,38 @@ inductive ListView (ν : Type) where
   | null
   | scalar
 
+/-- the places where an operator receives an `Err` item from an input of its own (the operators
+    with a hand-written forwarding arm; Distinct / Union / Skip / OrderBy have their own flags) -/
+inductive OpKind where
+  | filter | project | unwind | aggregate
+  | matchOut | matchOutVarLen | matchIn | matchUndirected | matchBoundRel
+  | procedureCall | fixupOuter | fixupFiltered
+  | apply | applySub | cartesianLeft | cartesianRight
+  deriving DecidableEq, Repr
+
+def OpKind.all : List OpKind :=
+  [.filter, .project, .unwind, .aggregate, .matchOut, .matchOutVarLen, .matchIn, .matchUndirected,
+   .matchBoundRel, .procedureCall, .fixupOuter, .fixupFiltered, .apply, .applySub, .cartesianLeft,
+   .cartesianRight]
+
+/-- the name tools/extract.py uses for the place -/
+def OpKind.name : OpKind → String
+  | .filter => "filter" | .project => "project" | .unwind => "unwind" | .aggregate => "aggregate"
+  | .matchOut => "matchOut" | .matchOutVarLen => "matchOutVarLen" | .matchIn => "matchIn"
+  | .matchUndirected => "matchUndirected" | .matchBoundRel => "matchBoundRel"
+  | .procedureCall => "procedureCall" | .fixupOuter => "fixupOuter" | .fixupFiltered => "fixupFiltered"
+  | .apply => "apply" | .applySub => "applySub" | .cartesianLeft => "cartesianLeft"
+  | .cartesianRight => "cartesianRight"
+
+/-- the expansion iterators (match_out_plan.rs, match_in_undirected_plan.rs, match_bound_rel_plan.rs) -/
+inductive ExpandKind where
+  | matchOut | matchOutVarLen | matchIn | matchUndirected | matchBoundRel
+  deriving DecidableEq, Repr
+
+def ExpandKind.op : ExpandKind → OpKind
+  | .matchOut => .matchOut | .matchOutVarLen => .matchOutVarLen | .matchIn => .matchIn
+  | .matchUndirected => .matchUndirected | .matchBoundRel => .matchBoundRel
+
 /-- which known quirks of the pinned tree are present (true = defect present) -/
 structure Quirks where
   distinctDropsErr : Bool
@@ -80,15 +112,20 @@ structure Quirks where
   existsSwallowsErr : Bool
   /-- the guard skips `take_failure` on the pull that finds its operator exhausted -/
   guardDropsFailureAtEnd : Bool
+  /-- the places whose forwarding arm for an `Err` input item is missing: the item is skipped -/
+  drops : List OpKind
   deriving DecidableEq, Repr
 
-def Quirks.repaired : Quirks := ⟨false, false, false, false, false, false, false⟩
-def Quirks.pinned : Quirks := ⟨true, true, true, true, true, true, false⟩
+def Quirks.dropsErr (Q : Quirks) (k : OpKind) : Bool := Q.drops.contains k
+
+def Quirks.repaired : Quirks := ⟨false, false, false, false, false, false, false, []⟩
+def Quirks.pinned : Quirks := ⟨true, true, true, true, true, true, false, []⟩
 /-- the working tree, as read by tools/extract.py -/
 def Quirks.current : Quirks :=
   ⟨Generated.distinctDropsErr, Generated.unionDropsErr, Generated.skipDropsErr,
    Generated.orderByKeepsErr, Generated.filterNonBoolDrops, Generated.existsSwallowsErr,
-   Generated.guardDropsFailureAtEnd⟩
+   Generated.guardDropsFailureAtEnd,
+   OpKind.all.filter (fun k => Generated.dropsInputErr.contains k.name)⟩
 
 /-- where in the plan tree a check sits: every execution of every node has its own oracle -/
 inductive Site where
@@ -151,6 +188,18 @@ structure Sem (χ ρ ν ε κ α : Type) where
   aggPark : (String → Nat → Option ε) → List (α × String) → ρ → List ρ → Option ε
   /-- the error `FilterIter` raises for a predicate that is neither boolean nor null (repaired tree) -/
   nonBool : ε
+  /-- `IndexSeek`: `snapshot.lookup_index(label, field, value)` for the seek named by the key
+      (alias, label, field), tombstones filtered, as rows binding the alias; `none` = the value is
+      not a null / bool / string or there is no such index: the fallback plan runs -/
+  lookup : String → ν → Option (List ρ)
+  /-- `ProcedureCallIter`, steps 3b–4 for one outer row: implicit fixture arguments (from the
+      parameters), registry lookup, `proc.execute(args)`, and the result rows joined to the outer
+      row under the YIELD aliases; arguments: procedure key, parameters, outer row, argument values -/
+  call : String → ρ → ρ → List ν → Except ε (List ρ)
+  /-- `row_contains_all_bindings(row, outer)` (OptionalWhereFixup) -/
+  contains : ρ → ρ → Bool
+  /-- `Value::Null` -/
+  null : ν
 
 /-! ## transducers -/
 
@@ -179,44 +228,77 @@ def Trans.need {σ ε ρ : Type} (t : Trans σ ε ρ) : σ → Stream ε ρ → 
     else if d ≤ (t.step st x).2.length then 1
     else 1 + t.need (t.step st x).1 xs (d - (t.step st x).2.length)
 
+/-- an operator whose arm for an `Err` input item is missing (`drops`): the item is skipped -/
+def dropErrT {σ ε ρ : Type} (drops : Bool) (t : Trans σ ε ρ) : Trans σ ε ρ where
+  done := t.done
+  step st x :=
+    match x with
+    | .ok r => t.step st (.ok r)
+    | .error e => if drops then (st, []) else t.step st (.error e)
+  flush := t.flush
+
+/-- the same for a stream that is consumed whole by a loop -/
+def dropErrs {ε ρ : Type} (drops : Bool) (s : Stream ε ρ) : Stream ε ρ :=
+  if drops then s.filter Item.isOk else s
+
 /-- `a` if it is there, else `b` (`record_failure` keeps the FIRST error) -/
 def firstSome {β : Type} : Option β → Option β → Option β
   | some a, _ => some a
   | none, b => b
 
 /-- an operator together with the failures its expression evaluation parks
-    (`Params::record_failure`) and the `take_failure` of the guard that wraps it
-    (runtime_limits.rs RuntimeGuardIter::next: `let item = self.inner.next(); take_failure()?`):
+    (`Params::record_failure`) and the `take_failure` of the runtime guards
+    (runtime_limits.rs RuntimeGuardIter::next: `let item = self.inner.next(); take_failure()?`).
     `parks st x` = processing the input item `x` parks a failure, `flushParks st` = the work done
-    once the input is exhausted parks one.  A parked failure is pending until the operator's
-    `next()` returns: the item it returns is replaced by the error; if it returns `None` the error is
-    reported in its place (`dropAtEnd` = the guard skips that check on the exhausting pull). -/
+    once the input is exhausted parks one.  The parked failure is taken by the FIRST guard whose
+    wrapped `next()` returns afterwards:
+    * the operator's own guard, if the operator returns an item for this input item: that item is
+      replaced by the error;
+    * otherwise the guard of the operator's INPUT, on the next pull: the operator receives the error
+      in place of the next input item (state `some e`: the next step processes `.error e`), also in
+      place of the final `None` — unless that guard skips the check on the exhausting pull
+      (`dropAtEnd`), in which case only an item of the final work can still be replaced. -/
 def parkT {σ ε ρ : Type} (t : Trans σ ε ρ) (parks : σ → Except ε ρ → Option ε)
     (flushParks : σ → Option ε) (dropAtEnd : Bool) : Trans (σ × Option ε) ε ρ where
   done s := t.done s.1
   step s x :=
-    match firstSome s.2 (parks s.1 x) with
-    | none => (((t.step s.1 x).1, none), (t.step s.1 x).2)
-    | some e =>
-      match (t.step s.1 x).2 with
-      | [] => (((t.step s.1 x).1, some e), [])
-      | _ :: rest => (((t.step s.1 x).1, none), .error e :: rest)
+    match s.2 with
+    | some e => (((t.step s.1 (.error e)).1, none), (t.step s.1 (.error e)).2)
+    | none =>
+      match parks s.1 x with
+      | none => (((t.step s.1 x).1, none), (t.step s.1 x).2)
+      | some e =>
+        match (t.step s.1 x).2 with
+        | [] => (((t.step s.1 x).1, some e), [])
+        | _ :: rest => (((t.step s.1 x).1, none), .error e :: rest)
   flush s :=
-    match firstSome s.2 (flushParks s.1) with
-    | none => t.flush s.1
+    match s.2 with
     | some e =>
-      match t.flush s.1 with
-      | [] => if dropAtEnd then [] else [.error e]
-      | _ :: rest => .error e :: rest
+      if dropAtEnd then
+        (match t.flush s.1 with
+         | [] => []
+         | _ :: rest => .error e :: rest)
+      else (t.step s.1 (.error e)).2 ++ t.flush (t.step s.1 (.error e)).1
+    | none =>
+      match flushParks s.1 with
+      | none => t.flush s.1
+      | some e =>
+        match t.flush s.1 with
+        | [] => if dropAtEnd then [] else [.error e]
+        | _ :: rest => .error e :: rest
 
-/-- the failures parked among the input items pulled (and the final work done) to answer `d` calls -/
+/-- the failure parked (if any) among the input items pulled — and the final work done — to answer
+    `d` calls; after the first one the error is on its way up and nothing else is processed -/
 def parkEvents {σ ε ρ : Type} (t : Trans σ ε ρ) (parks : σ → Except ε ρ → Option ε)
     (flushParks : σ → Option ε) : σ → Stream ε ρ → Nat → List ε
   | st, [], d => if d = 0 ∨ t.done st = true then [] else (flushParks st).toList
   | st, x :: xs, d =>
     if d = 0 ∨ t.done st = true then []
-    else (parks st x).toList ++
-      (if d ≤ (t.step st x).2.length then [] else parkEvents t parks flushParks (t.step st x).1 xs (d - (t.step st x).2.length))
+    else match parks st x with
+      | some e => [e]
+      | none =>
+        if d ≤ (t.step st x).2.length then []
+        else parkEvents t parks flushParks (t.step st x).1 xs (d - (t.step st x).2.length)
 
 section ops
 variable {χ ρ ν ε κ α : Type} [DecidableEq κ]
@@ -498,25 +580,140 @@ def aggregateFlushParks (S : Sem χ ρ ν ε κ α) (L : LimEnv ε) (env : ρ) (
     BlockSt (List (κ × List ρ)) → Option ε :=
   fun st => st.acc.findSome? (fun g => S.aggPark L.coll aggs env g.2)
 
+/-! ### ProcedureCall (join_apply.rs ProcedureCallIter::next) -/
+
+/-- one outer row: `ensure…?` + evaluate for every argument in order, then the call; an error of
+    either is the only item for this row -/
+def procRow (S : Sem χ ρ ν ε κ α) (L : LimEnv ε) (env : ρ) (name : String) (args : List χ) (r : ρ) :
+    Stream ε ρ :=
+  match args.mapM (fun a => S.eval L.coll a env r) with
+  | .error e => [.error e]
+  | .ok vs =>
+    match S.call name env r vs with
+    | .error e => [.error e]
+    | .ok rows => rows.map .ok
+
+/-! ### IndexSeek (index_seek_plan.rs) -/
+
+/-- a failure parked while the iterator was BUILT: the node's guard takes it on its first pull, in
+    place of the first item (or of the end of the stream) -/
+def parkHead (p : Option ε) (dropAtEnd : Bool) (s : Stream ε ρ) : Stream ε ρ :=
+  match p with
+  | none => s
+  | some e =>
+    match s with
+    | [] => if dropAtEnd then [] else [.error e]
+    | _ :: rest => .error e :: rest
+
+/-- the seek value is usable (`ensure…` passes) and the index answers for it -/
+def seekHit (S : Sem χ ρ ν ε κ α) (L : LimEnv ε) (env : ρ) (key : String) (value : χ) : Option (List ρ) :=
+  match S.eval L.coll value env S.empty with
+  | .error _ => none
+  | .ok v => S.lookup key v
+
+/-- execute_index_seek: `ensure…` on the empty row (its error is the only item), then the rows of
+    the index entry, or the fallback plan's (guarded) iterator -/
+def seekBody (S : Sem χ ρ ν ε κ α) (L : LimEnv ε) (env : ρ) (key : String) (value : χ)
+    (fallback : Stream ε ρ) : Stream ε ρ :=
+  match S.eval L.coll value env S.empty with
+  | .error e => [.error e]
+  | .ok v =>
+    match S.lookup key v with
+    | some rows => rows.map .ok
+    | none => fallback
+
+/-! ### OptionalWhereFixup (plan_mid.rs execute_optional_where_fixup) -/
+
+structure LoopSt where
+  n : Nat
+  rows : Nat
+  dead : Bool
+
+/-- a collect loop `for item in execute_plan(..) { check_timeout?; item?; push; check_collection_size? }`
+    seen as a pass-through: the rows it pushes, then the error that ends it -/
+def loopT (L : LimEnv ε) (timeSite : Site) (stage : String) : Trans LoopSt ε ρ where
+  done st := st.dead
+  step st x :=
+    match L.time timeSite st.n with
+    | some e => (⟨st.n + 1, st.rows, true⟩, [.error e])
+    | none =>
+      match x with
+      | .error e => (⟨st.n + 1, st.rows, true⟩, [.error e])
+      | .ok r =>
+        match L.coll stage (st.rows + 1) with
+        | some e => (⟨st.n + 1, st.rows + 1, true⟩, [.error e])
+        | none => (⟨st.n + 1, st.rows + 1, false⟩, [.ok r])
+  flush _ := []
+
+/-- the merge loop: per outer row `check_timeout`, the filtered rows that contain its bindings (or
+    the row padded with nulls), `check_collection_size("OptionalWhereFixup.output")`;
+    `i` = index of the outer row, `n` = rows put out so far -/
+def fixupMerge (S : Sem χ ρ ν ε κ α) (L : LimEnv ε) (site : Site) (nulls : List String) (filtered : List ρ) :
+    Nat → Nat → List ρ → Except ε (List ρ)
+  | _, _, [] => .ok []
+  | i, n, o :: os =>
+    match L.time (.inner (.inner (.inner site))) i with
+    | some e => .error e
+    | none =>
+      let ms := filtered.filter (fun r => S.contains r o)
+      let out := if ms.isEmpty then [nulls.foldl (fun acc a => S.set acc a S.null) o] else ms
+      match L.coll "OptionalWhereFixup.output" (n + out.length) with
+      | some e => .error e
+      | none => (fixupMerge S L site nulls filtered (i + 1) (n + out.length) os).map (out ++ ·)
+
+/-- the whole of execute_optional_where_fixup given the two (guarded, drained) input streams:
+    the first failure of any of the three loops is the only item -/
+def fixupBody (S : Sem χ ρ ν ε κ α) (Q : Quirks) (L : LimEnv ε) (site : Site) (nulls : List String)
+    (outer filtered : Stream ε ρ) : Stream ε ρ :=
+  match collect ((dropErrT (Q.dropsErr .fixupOuter) (loopT L (.inner site) "OptionalWhereFixup.outer")).run
+      ⟨0, 0, false⟩ outer) with
+  | .error e => [.error e]
+  | .ok orows =>
+    match collect ((dropErrT (Q.dropsErr .fixupFiltered)
+        (loopT L (.inner (.inner site)) "OptionalWhereFixup.filtered")).run ⟨0, 0, false⟩ filtered) with
+    | .error e => [.error e]
+    | .ok frows =>
+      match fixupMerge S L site nulls frows 0 0 orows with
+      | .error e => [.error e]
+      | .ok rows => rows.map .ok
+
 end ops
 
 /-! ## plans -/
 
-/-- the plan nodes that produce and transform result rows (`executor::Plan`, read side) -/
+/-- the plan nodes `execute_plan` dispatches on (`executor::Plan`), all of them:
+    ReturnOne / Values / NodeScan / Match* without input = `scan`; Create / Delete / Set* / Remove* /
+    Foreach (which `execute_plan` answers with `once(Err(..))`) = `fail`; Match* with input = `expand`;
+    the others by name. -/
 inductive Plan (χ ρ ε α : Type) where
-  /-- a leaf with a fixed output: ReturnOne, Values, NodeScan, IndexSeek, MatchOut… without input -/
-  | source (items : Stream ε ρ)
+  /-- a leaf whose rows are facts of the graph and all `Ok`: ReturnOne (`[empty]`), Values,
+      NodeScan (also OPTIONAL: the null row when nothing matches), MatchOut / MatchOutVarLen in scan
+      mode, MatchIn / MatchUndirected without input (their `once(Ok(Row::default()))` expanded) -/
+  | scan (rows : List ρ)
+  /-- a write plan met on the read path: plan_tail.rs write_only_plan_error,
+      plan_head.rs write_only_foreach_error -/
+  | fail (e : ε)
   /-- the leaf of a correlated subquery: `Values { rows: [outer_row] }` -/
   | arg
+  /-- index_seek_plan.rs: seek value evaluated on the empty row; index rows or the fallback plan -/
+  | indexSeek (key : String) (value : χ) (fallback : Plan χ ρ ε α)
   | filter (pred : χ) (inp : Plan χ ρ ε α)
   /-- `WHERE EXISTS { sub }`: Filter whose predicate runs `exists_subquery_has_rows` -/
   | filterExists (sub : Plan χ ρ ε α) (inp : Plan χ ρ ε α)
   | project (projs : List (String × χ)) (inp : Plan χ ρ ε α)
   | distinct (inp : Plan χ ρ ε α)
   | unwind (e : χ) (alias : String) (inp : Plan χ ρ ε α)
-  /-- MatchOut / MatchIn / MatchUndirected / MatchBoundRel / ProcedureCall with an input plan:
-      every input row is expanded by a function of the graph; input errors are passed on -/
-  | expand (f : ρ → Stream ε ρ) (inp : Plan χ ρ ε α)
+  /-- MatchOut (ExpandIter) / MatchOutVarLen / MatchIn / MatchUndirected / MatchBoundRel with an
+      input plan: `g row` = what the iterator yields for one input row — a function of the graph:
+      the matching neighbours bound into the row, the OPTIONAL null row, nothing, or (ExpandIter)
+      the single error "Variable … is not a node" / "… not found".
+      The `limit` field of these plans is not modelled: the planner never sets it
+      (Generated.matchLimitPushedDown). -/
+  | expand (kind : ExpandKind) (g : ρ → Stream ε ρ) (inp : Plan χ ρ ε α)
+  /-- join_apply.rs ProcedureCallIter -/
+  | procedureCall (name : String) (args : List χ) (inp : Plan χ ρ ε α)
+  /-- plan_mid.rs execute_optional_where_fixup (OPTIONAL MATCH … WHERE) -/
+  | fixup (nulls : List String) (outer filtered : Plan χ ρ ε α)
   | skip (n : χ) (inp : Plan χ ρ ε α)
   | limit (n : χ) (inp : Plan χ ρ ε α)
   | orderBy (keys : List (χ × Bool)) (inp : Plan χ ρ ε α)
@@ -524,6 +721,30 @@ inductive Plan (χ ρ ε α : Type) where
   | union (all : Bool) (l r : Plan χ ρ ε α)
   | cartesian (l r : Plan χ ρ ε α)
   | apply (inp sub : Plan χ ρ ε α)
+
+/-- length of the longest operator path below the node (nested executions — the right side of a
+    CartesianProduct, the subquery of an Apply / EXISTS filter, the fallback of an IndexSeek — count
+    as children) -/
+def Plan.depth {χ ρ ε α : Type} : Plan χ ρ ε α → Nat
+  | .scan _ => 0
+  | .fail _ => 0
+  | .arg => 0
+  | .indexSeek _ _ fb => fb.depth + 1
+  | .filter _ inp => inp.depth + 1
+  | .filterExists sub inp => max inp.depth sub.depth + 1
+  | .project _ inp => inp.depth + 1
+  | .distinct inp => inp.depth + 1
+  | .unwind _ _ inp => inp.depth + 1
+  | .expand _ _ inp => inp.depth + 1
+  | .procedureCall _ _ inp => inp.depth + 1
+  | .fixup _ outer filtered => max outer.depth filtered.depth + 1
+  | .skip _ inp => inp.depth + 1
+  | .limit _ inp => inp.depth + 1
+  | .orderBy _ inp => inp.depth + 1
+  | .aggregate _ _ inp => inp.depth + 1
+  | .union _ l r => max l.depth r.depth + 1
+  | .cartesian l r => max l.depth r.depth + 1
+  | .apply inp sub => max inp.depth sub.depth + 1
 
 section run
 variable {χ ρ ν ε κ α : Type} [DecidableEq κ]
@@ -554,23 +775,39 @@ def existsRow (Q : Quirks) (outer : ρ) (sub : Stream ε ρ) : Stream ε ρ :=
 /-- `execute_plan`: the stream of a plan node (drained), guard included.
     `env` = parameters / outer row of the enclosing correlated subquery. -/
 def runL (S : Sem χ ρ ν ε κ α) (Q : Quirks) (L : LimEnv ε) : Site → ρ → Plan χ ρ ε α → Stream ε ρ
-  | site, _, .source items => guard L site items
+  | site, _, .scan rows => guard L site (rows.map .ok)
+  | site, _, .fail e => guard L site [.error e]
   | site, env, .arg => guard L site [.ok env]
+  | site, env, .indexSeek key value fb =>
+    guard L site (parkHead (S.park L.coll value env S.empty) Q.guardDropsFailureAtEnd
+      (seekBody S L env key value (runL S Q L (.left site) env fb)))
   | site, env, .filter pred inp =>
-    guard L site ((filterT S Q L env pred).run () (runL S Q L (.left site) env inp))
+    guard L site ((dropErrT (Q.dropsErr .filter) (filterT S Q L env pred)).run ()
+      (runL S Q L (.left site) env inp))
   | site, env, .filterExists sub inp =>
-    guard L site ((flatMapT (fun k r => existsRow Q r (runL S Q L (.exec k site) (S.bind env r) sub))).run 0
+    guard L site ((dropErrT (Q.dropsErr .filter)
+      (flatMapT (fun k r => existsRow Q r (runL S Q L (.exec k site) (S.bind env r) sub)))).run 0
       (runL S Q L (.left site) env inp))
   | site, env, .project projs inp =>
-    guard L site ((parkT (projectT S L env projs) (rowParks S L env (projs.map (·.2))) noFlushParks
+    guard L site ((parkT (dropErrT (Q.dropsErr .project) (projectT S L env projs))
+      (rowParks S L env (projs.map (·.2))) noFlushParks
       Q.guardDropsFailureAtEnd).run ((), none) (runL S Q L (.left site) env inp))
   | site, env, .distinct inp =>
     guard L site ((distinctT S Q.distinctDropsErr).run [] (runL S Q L (.left site) env inp))
   | site, env, .unwind e alias inp =>
-    guard L site ((parkT (flatMapT (unwindRow S L site env e alias)) (rowParks S L env [e]) noFlushParks
+    guard L site ((parkT (dropErrT (Q.dropsErr .unwind) (flatMapT (unwindRow S L site env e alias)))
+      (rowParks S L env [e]) noFlushParks
       Q.guardDropsFailureAtEnd).run (0, none) (runL S Q L (.left site) env inp))
-  | site, env, .expand f inp =>
-    guard L site ((flatMapT (fun _ r => f r)).run 0 (runL S Q L (.left site) env inp))
+  | site, env, .expand kind g inp =>
+    guard L site ((dropErrT (Q.dropsErr kind.op) (flatMapT (fun _ r => g r))).run 0
+      (runL S Q L (.left site) env inp))
+  | site, env, .procedureCall name args inp =>
+    guard L site ((parkT (dropErrT (Q.dropsErr .procedureCall) (flatMapT (fun _ r => procRow S L env name args r)))
+      (rowParks S L env args) noFlushParks
+      Q.guardDropsFailureAtEnd).run (0, none) (runL S Q L (.left site) env inp))
+  | site, env, .fixup nulls outer filtered =>
+    guard L site (fixupBody S Q L site nulls (runL S Q L (.left site) env outer)
+      (runL S Q L (.right site) env filtered))
   | site, env, .skip n inp =>
     guard L site (match S.window n env with
       | .error e => [.error e]
@@ -583,19 +820,24 @@ def runL (S : Sem χ ρ ν ε κ α) (Q : Quirks) (L : LimEnv ε) : Site → ρ 
     guard L site ((parkT (orderByT S Q L site env keys) (fun _ _ => none) (orderByFlushParks S L env keys)
       Q.guardDropsFailureAtEnd).run (⟨[], 0, false⟩, none) (runL S Q L (.left site) env inp))
   | site, env, .aggregate groupBy aggs inp =>
-    guard L site ((parkT (aggregateT S L site env groupBy aggs) (fun _ _ => none) (aggregateFlushParks S L env aggs)
+    guard L site ((parkT (dropErrT (Q.dropsErr .aggregate) (aggregateT S L site env groupBy aggs))
+      (fun _ _ => none) (aggregateFlushParks S L env aggs)
       Q.guardDropsFailureAtEnd).run (⟨[], 0, false⟩, none) (runL S Q L (.left site) env inp))
   | site, env, .union all l r =>
     guard L site (
       if all then runL S Q L (.left site) env l ++ runL S Q L (.right site) env r
       else (distinctT S Q.unionDropsErr).run [] (runL S Q L (.left site) env l ++ runL S Q L (.right site) env r))
   | site, env, .cartesian l r =>
-    guard L site ((flatMapT (fun k lrow => (runL S Q L (.exec k site) env r).map (joinItem S lrow))).run 0
+    guard L site ((dropErrT (Q.dropsErr .cartesianLeft)
+      (flatMapT (fun k lrow =>
+        (dropErrs (Q.dropsErr .cartesianRight) (runL S Q L (.exec k site) env r)).map (joinItem S lrow)))).run 0
       (runL S Q L (.left site) env l))
   | site, env, .apply inp sub =>
     guard L site (match L.time (.inner site) 0 with
       | some e => [.error e]
-      | none => (flatMapT (fun k r => applyRow S L site k r (runL S Q L (.exec k site) (S.bind env r) sub))).run 0
+      | none => (dropErrT (Q.dropsErr .apply)
+          (flatMapT (fun k r => applyRow S L site k r
+            (dropErrs (Q.dropsErr .applySub) (runL S Q L (.exec k site) (S.bind env r) sub))))).run 0
           (runL S Q L (.left site) env inp))
 
 /-- the query-level result: `execute_streaming(..).collect::<Result<Vec<_>>>()` -/
